@@ -223,6 +223,27 @@ def check_mask(case, ctx):
     ctx.require(errs[best] <= TOL * scale, tag + ':chain' + (':shifted' if shifted else '') + (':nonsquare' if ny != nx else ''),
                 'to_fpm_and_back %s mask %s dx_fpm=%.5g shift=%r differs from the textbook chain by %.3g (scale %.3g)' % (
                     shape, case['mshape'], fpm_dx, sh, errs[best], scale))
+    # the documented longer return form: (field at the next pupil, field at the mask, field after the mask)
+    if via == 'function':
+        more = ctx.call(P.to_fpm_and_back, f, dx, efl, lam, m1, fpm_dx, shift=sh, method=method, return_more=True)
+        parts = [np.asarray(q) for q in more] if isinstance(more, (tuple, list)) else []
+    elif via == 'wavefront':
+        more = ctx.call(P.Wavefront(f, lam, dx).to_fpm_and_back, efl, m1, fpm_dx, method=method, shift=sh, return_more=True)
+        parts = [np.asarray(q.data) for q in more] if isinstance(more, (tuple, list)) else []
+        if len(parts) == 3:
+            ctx.require(more[1].dx == fpm_dx and more[2].dx == fpm_dx and more[0].dx == dx, 'to_fpm_and_back:return_more:metadata', 'spacings of the three returned wavefronts')
+    else:
+        parts = None
+    if parts is not None:
+        ctx.require(len(parts) == 3, tag + ':return_more:arity', 'return_more=True returned %d values' % len(parts))
+        U.check_close(parts[0], T1, 0, tag + ':return_more:pupil', 'first value of return_more=True != the plain result', atol=TOL * scale)
+        U.check_shape(parts[1], m1.shape, tag + ':return_more:at-mask')
+        U.check_close(parts[2], parts[1] * m1f, 0, tag + ':return_more:after-mask', 'field after the mask != field at the mask * mask',
+                      atol=TOL * max(float(np.abs(parts[1]).max()) * max(1.0, float(np.abs(m1f).max())), 1e-300))
+        refF = [_chain(f, m1f, Q, (sgn * s_samp[0], sgn * s_samp[1]))[1] for sgn in ((1, -1) if shifted else (1,))]
+        eF = min(float(np.abs(np.abs(parts[1]) - np.abs(rf)).max()) if shifted else float(np.abs(parts[1] - rf).max()) for rf in refF)
+        fscale = max(float(np.abs(f).sum()) * dx * fpm_dx / (lam * efl), 1e-300)
+        ctx.require(eF <= TOL * 10 * fscale, tag + ':return_more:at-mask', 'field at the mask differs from the textbook transform by %.3g (scale %.3g)' % (eF, fscale))
     if not shifted and via != 'function':
         w = P.Wavefront(f, lam, dx)
         bab = ctx.call(w.babinet, efl, None, m1, fpm_dx, method=method)
